@@ -178,16 +178,78 @@ def run(ctx):
     w.exactly('define_arm', len(d_arm), 1)
     if d_arm:
         body = d_arm[0].body
-        lits = [n for n in sx.walk(body) if n.get('k') == 'struct' and n['p'] == 'Define']
-        ins = [n for n in sx.walk(body) if n.get('k') == 'mcall' and n['m'] == 'insert' and sx.is_path(n['recv'], tab)]
-        ok = len(lits) == 1 and len(ins) == 1
-        if ok:
-            fl = {x['n']: sq(x['e']) for x in lits[0]['fields']}
-            ok = fl.get('identifier') == 'id.clone()' and fl.get('arguments') == 'define_args' and fl.get('text') == 'define_text' \
-                and sq(ins[0]['args'][0]) == 'id' and sq(ins[0]['args'][1]) == 'Some(define)'
-        w.inst('define-record', {'record': sq(lits[0])[:80] if lits else None})
-        if not ok:
-            w.fail('%s:define-record' % CRATE, pp.where(d_arm[0].line), '`define must insert, under the macro\'s own name, a Define built from that directive\'s name, formals and text')
+        ins = [n for n in sx.walk(body) if n.get('k') == 'mcall' and n['m'] == 'insert' and sx.is_path(n['recv'], tab) and len(n['args']) == 2]
+
+        def local_init(name):
+            ls = [n for n in sx.walk(body) if n.get('k') == 'let' and n.get('pat', {}).get('k') == 'ident' and n['pat']['n'] == name and 'init' in n]
+            return ls[-1]['init'] if ls else None
+
+        def record_triple(e):
+            """(identifier, arguments, text) expressions of a Define value: struct literal or Define::new(..) (constructor parameters
+            mapped through the constructor's own struct literal)"""
+            e = sx.strip_ref(e)
+            if sx.is_path(e):
+                init = local_init(e['p'])
+                return record_triple(init) if init is not None else None
+            if e.get('k') == 'struct' and e['p'] == 'Define':
+                fl = {x['n']: x['e'] for x in e['fields']}
+                if set(fl) == {'identifier', 'arguments', 'text'}:
+                    return fl['identifier'], fl['arguments'], fl['text']
+                return None
+            if e.get('k') == 'call' and sx.is_path(e['f']) and e['f']['p'] in ('Define::new', 'Self::new') and ('Define', 'new') in pp.methods:
+                cf = pp.methods[('Define', 'new')]
+                ps = [sx.pat_idents(q['pat'])[0] for q in cf['sig']['params'] if q.get('k') == 'typed']
+                lit = [n for n in sx.walk(cf['body']) if n.get('k') == 'struct' and n['p'] in ('Define', 'Self')]
+                if len(lit) == 1 and len(ps) == len(e['args']):
+                    fl = {x['n']: x['e'] for x in lit[0]['fields']}
+                    amap = dict(zip(ps, e['args']))
+                    out = []
+                    for fld in ('identifier', 'arguments', 'text'):
+                        v = fl.get(fld)
+                        if v is None or not sx.is_path(v) or v['p'] not in amap:
+                            return None
+                        out.append(amap[v['p']])
+                    return tuple(out)
+            return None
+
+        verdict, why = 'undecided', 'record construction not recognised'
+        if len(ins) == 1:
+            keyv = sx.strip_ref(ins[0]['args'][0])
+            val = ins[0]['args'][1]
+            inner = val['args'][0] if sx.is_call(val, 'Some') and len(val['args']) == 1 else None
+            trip = record_triple(inner) if inner is not None else None
+            key_init = local_init(keyv['p']) if sx.is_path(keyv) else None
+            if inner is None:
+                verdict, why = ('wrong', 'the table entry is `%s`, not Some(Define)' % sq(val)[:40]) if sq(val) == 'None' else ('undecided', 'inserted value `%s`' % sq(val)[:40])
+            elif key_init is None or 'identifier(' not in sq(key_init):
+                verdict, why = 'undecided', 'the key is not a local bound from identifier(<the directive\'s name>)'
+            elif trip is None:
+                verdict, why = 'undecided', 'Define value `%s` not recognised' % sq(inner)[:40]
+            else:
+                ide, arg, txt = (sx.strip_ref(x) for x in trip)
+                ide_root = ide['recv'] if ide.get('k') == 'mcall' and ide['m'] in ('clone', 'to_string', 'to_owned') else ide
+                if not sx.is_path(ide_root, keyv['p']):
+                    verdict, why = 'wrong', 'the Define records the name `%s`, the table key is `%s`' % (sq(ide)[:30], keyv['p'])
+                elif arg.get('k') in ('macro',) or sq(arg) in ('Vec::new()', 'vec![]'):
+                    verdict, why = 'wrong', 'the Define records no formal arguments (`%s`)' % sq(arg)[:30]
+                elif sq(txt) == 'None':
+                    verdict, why = 'wrong', 'the Define records no body (`None`)'
+                elif sx.is_path(arg) and sx.is_path(txt):
+                    pushes_ = [n for n in sx.walk(body) if n.get('k') == 'mcall' and n['m'] == 'push' and sx.is_path(n['recv'], arg['p'])]
+                    tinit = local_init(txt['p'])
+                    if pushes_ and tinit is not None and 'DefineText' in sq(tinit):
+                        verdict, why = 'ok', ''
+                    else:
+                        verdict, why = 'undecided', 'how `%s` / `%s` are filled from the directive is not recognised' % (arg['p'], txt['p'])
+                else:
+                    verdict, why = 'undecided', 'arguments / text are not plain locals'
+        elif not ins:
+            verdict, why = 'wrong', 'the `define handler never inserts into the table'
+        w.inst('define-record', {'verdict': verdict, 'why': why})
+        if verdict == 'wrong':
+            w.fail('%s:define-record' % CRATE, pp.where(d_arm[0].line), '`define must insert, under the macro\'s own name, a Define built from that directive\'s name, formals and text: %s' % why)
+        elif verdict == 'undecided':
+            w.undecided('%s:define-record' % CRATE, pp.where(d_arm[0].line), '`define record: %s' % why)
     u_arm = [a for a in pp.arms if a.event == 'Enter' and a.kind == 'UndefineCompilerDirective']
     if u_arm:
         rm = [n for n in sx.walk(u_arm[0].body) if n.get('k') == 'mcall' and n['m'] == 'remove']
